@@ -187,21 +187,38 @@ Definition crash_plan (c : nat) (pr : prog) : plan :=
   if p_failed pr then {| pl_rep := true; pl_err := p_error pr; pl_sv := false; pl_rm := false |}
   else {| pl_rep := true; pl_err := Some (MStr c); pl_sv := true; pl_rm := false |}.
 
+Lemma diag_plan_failed failed pr : p_failed pr = true ->
+  diag_plan failed pr = {| pl_rep := true; pl_err := p_error pr; pl_sv := false; pl_rm := false |}.
+Proof. intros H. unfold diag_plan. rewrite H. reflexivity. Qed.
+
+Lemma diag_plan_ok failed pr : p_failed pr = false ->
+  diag_plan failed pr = {| pl_rep := pviol failed pr; pl_err := final_err failed (p_programs pr) (p_error pr);
+                           pl_sv := pviol failed pr; pl_rm := true |}.
+Proof. intros H. unfold diag_plan. rewrite H. reflexivity. Qed.
+
+Lemma crash_plan_failed c pr : p_failed pr = true ->
+  crash_plan c pr = {| pl_rep := true; pl_err := p_error pr; pl_sv := false; pl_rm := false |}.
+Proof. intros H. unfold crash_plan. rewrite H. reflexivity. Qed.
+
+Lemma crash_plan_ok c pr : p_failed pr = false ->
+  crash_plan c pr = {| pl_rep := true; pl_err := Some (MStr c); pl_sv := true; pl_rm := false |}.
+Proof. intros H. unfold crash_plan. rewrite H. reflexivity. Qed.
+
 Lemma diag_loop_run failed oracles : forall out f out' f',
   diag_loop failed oracles out f = inl (out', f') ->
   run (diag_plan failed) oracles out f = (out', f').
 Proof.
   induction oracles as [|[p pr] rest IH]; intros out f out' f' H.
   - simpl in *. inversion H. reflexivity.
-  - cbn [diag_loop] in H. cbn [run]. unfold diag_plan at 1 2.
+  - cbn [diag_loop] in H. cbn [run].
     destruct (p_failed pr) eqn:Ef.
-    + apply IH in H. exact H.
+    + rewrite (diag_plan_failed _ _ Ef). apply IH in H. exact H.
     + destruct (programs_loop failed p (p_programs pr) (p_error pr) out f)
         as [[[e1 o1] f1]|] eqn:EP; [|discriminate].
       apply programs_loop_spec in EP. destruct EP as [He EP].
       destruct (rmtree f1 (DTmp p)) as [f2|] eqn:ER; [|discriminate].
       apply rmtree_inl in ER. destruct ER as [_ Ef2]. subst f2.
-      apply IH in H. rewrite <- H.
+      apply IH in H. rewrite <- H. rewrite (diag_plan_ok _ _ Ef).
       unfold step_out, step_fs, pviol. cbn [pl_rep pl_err pl_sv pl_rm].
       destruct (existsb (violb failed) (p_programs pr)).
       * destruct EP as [_ [Eo Ef1]]. subst. reflexivity.
@@ -214,12 +231,12 @@ Lemma crash_loop_run c oracles : forall out f out' f',
 Proof.
   induction oracles as [|[p pr] rest IH]; intros out f out' f' H.
   - simpl in *. inversion H. reflexivity.
-  - cbn [crash_loop] in H. cbn [run]. unfold crash_plan at 1 2.
+  - cbn [crash_loop] in H. cbn [run].
     destruct (p_failed pr) eqn:Ef.
-    + apply IH in H. exact H.
+    + rewrite (crash_plan_failed _ _ Ef). apply IH in H. exact H.
     + destruct (copytree false f (DTmp p) (DSaved p)) as [f1|] eqn:EC; [|discriminate].
       apply copytree_inl in EC. destruct EC as [_ [Ef1 _]]. subst f1.
-      apply IH in H. exact H.
+      rewrite (crash_plan_ok _ _ Ef). apply IH in H. exact H.
 Qed.
 
 (* ---------------- generic facts about a run ---------------- *)
@@ -345,3 +362,56 @@ Proof.
 Qed.
 
 End Run.
+
+(* ---------------- totality of the outer loops ---------------- *)
+
+Lemma diag_loop_total failed oracles : forall out f,
+  NoDup (map fst oracles) ->
+  (forall p pr, In (p, pr) oracles -> p_failed pr = false -> has f (DTmp p) = true) ->
+  (forall p pr file, In (p, pr) oracles -> p_failed pr = false ->
+                     In (file, false) (p_programs pr) -> p_error pr <> None) ->
+  exists r, diag_loop failed oracles out f = inl r.
+Proof.
+  induction oracles as [|[p pr] rest IH]; intros out f Hnd Htmp Herr.
+  - simpl. eexists. reflexivity.
+  - cbn [diag_loop]. cbn [map fst] in Hnd. inversion Hnd as [|? ? Hnotin Hnd']; subst.
+    destruct (p_failed pr) eqn:Ef.
+    + apply IH; [exact Hnd'| |].
+      * intros q pr' Hin. apply Htmp. right. exact Hin.
+      * intros q pr' file Hin. apply (Herr q pr' file). right. exact Hin.
+    + assert (Ht : has f (DTmp p) = true) by (apply (Htmp p pr); [left; reflexivity | exact Ef]).
+      destruct (programs_loop_total failed p (p_programs pr) (p_error pr) out f Ht) as [[[e1 o1] f1] EP].
+      { intros file Hin. apply (Herr p pr file); [left; reflexivity | exact Ef | exact Hin]. }
+      rewrite EP. apply programs_loop_spec in EP. destruct EP as [_ EP].
+      assert (Hf1 : forall q, has f1 (DTmp q) = has f (DTmp q)).
+      { intros q. destruct (existsb (violb failed) (p_programs pr)).
+        - destruct EP as [_ [_ Ef1]]. subst f1. apply has_put_other. discriminate.
+        - destruct EP as [_ Ef1]. subst f1. reflexivity. }
+      rewrite rmtree_ok by (rewrite Hf1; exact Ht).
+      apply IH; [exact Hnd'| |].
+      * intros q pr' Hin Hf. rewrite has_del_other.
+        -- rewrite Hf1. apply (Htmp q pr'); [right; exact Hin | exact Hf].
+        -- intros E. inversion E; subst. apply Hnotin. apply (in_map fst) in Hin. exact Hin.
+      * intros q pr' file Hin. apply (Herr q pr' file). right. exact Hin.
+Qed.
+
+Lemma crash_loop_total c oracles : forall out f,
+  NoDup (map fst oracles) ->
+  (forall p pr, In (p, pr) oracles -> p_failed pr = false ->
+                has f (DTmp p) = true /\ has f (DSaved p) = false) ->
+  exists r, crash_loop c oracles out f = inl r.
+Proof.
+  induction oracles as [|[p pr] rest IH]; intros out f Hnd Hfs.
+  - simpl. eexists. reflexivity.
+  - cbn [crash_loop]. cbn [map fst] in Hnd. inversion Hnd as [|? ? Hnotin Hnd']; subst.
+    destruct (p_failed pr) eqn:Ef.
+    + apply IH; [exact Hnd'|]. intros q pr' Hin. apply Hfs. right. exact Hin.
+    + destruct (Hfs p pr (or_introl eq_refl) Ef) as [Ht Hs].
+      rewrite copytree_false_ok by assumption.
+      apply IH; [exact Hnd'|]. intros q pr' Hin Hf.
+      destruct (Hfs q pr' (or_intror Hin) Hf) as [Ht' Hs'].
+      split.
+      * rewrite has_put_other by discriminate. exact Ht'.
+      * rewrite has_put_other; [exact Hs'|].
+        intros E. inversion E; subst. apply Hnotin. apply (in_map fst) in Hin. exact Hin.
+Qed.
